@@ -116,6 +116,18 @@ def cmd_run(a):
             if rc != 0: print('%-10s patch does not apply: %s' % (i, out)); continue
             props = ALL if a.props == 'all' else [meta['breaks']]
             row = {}
+            if a.props == 'all':
+                r = subprocess.run([sys.executable, os.path.join(HERE, 'check.py'), 'MATRIX', '--repo', d, '--tier', a.tier], stdout=subprocess.PIPE, stderr=subprocess.STDOUT, text=True, cwd=VERIF)
+                for l in r.stdout.split('\n'):
+                    m = re.match(r'MATRIX (C\d+) (\d) ?(.*)$', l)
+                    if not m: continue
+                    p, rc, detail = m.group(1), int(m.group(2)), m.group(3)
+                    row[p] = dict(rc=rc, detail=detail[:400])
+                    tag = 'OWN' if p == meta['breaks'] else '   '
+                    if rc != 0 or p == meta['breaks']:
+                        print('%-10s %s %s %-9s %s' % (i, tag, p, {0: 'pass', 1: 'VIOLATION', 2: 'undecided'}.get(rc, '?'), detail[:160]))
+                sys.stdout.flush()
+                props = []
             for p in props:
                 r = subprocess.run([sys.executable, os.path.join(HERE, 'check.py'), p, '--repo', d, '--tier', a.tier], stdout=subprocess.PIPE, stderr=subprocess.STDOUT, text=True, cwd=VERIF)
                 lines = r.stdout.strip().split('\n')
